@@ -207,3 +207,23 @@ Example C12_example_bench :
              [(L 2, "NAND", [L 0; L 1]); (L 4, "DFF", [L 2]); (L 3, "XOR", [L 4; L 0])] in
   bench_wf b = true /\ import_bench b <> None.
 Proof. vm_compute. split; [reflexivity|discriminate]. Qed.
+
+(* several .latch lines fed by ONE next-state net keep their own init codes:
+   three latches on net L 2 with init 0, 1, 3 -- the model is accepted, each
+   register gets its own reset value and the first cycle shows 0, 1, (0) *)
+Definition ex_fan : model :=
+  mkModel [L 0; L 1] [L 3; L 4; L 5]
+    [ Latch (L 2) (L 3) 0; Names [L 0; L 1; L 2] [[P1; P0]; [P0; P1]];
+      Latch (L 2) (L 4) 1; Latch (L 2) (L 5) 3 ].
+
+Example C12_example_shared_next_state_net :
+  model_wf ex_fan = true /\
+  match import_flat ex_fan with
+  | Some c =>
+      c_init c = [(L 3, false); (L 4, true); (L 5, false)]
+      /\ let inss := map (fun v x => match x with L i => Z.testbit v i | _ => false end) [1; 3; 2] in
+         c_run 6 c (c_init c) inss
+         = [[false; true; false]; [true; true; true]; [false; false; false]]
+  | None => False
+  end.
+Proof. vm_compute. repeat split; reflexivity. Qed.
